@@ -124,6 +124,14 @@ impl Serializable for P256Point {
             .ok_or_else(|| {
                 CryptoCoreError::GenericDeserializationError("cannot deserialize point".to_string())
             })?;
+        // Only accept the encoding `write` produces: SEC1 also defines a
+        // "compact" form (tag 0x05) that decodes to the same point, which
+        // would make two different byte strings deserialize to equal objects.
+        if point.to_bytes().as_slice() != bytes.as_slice() {
+            return Err(CryptoCoreError::GenericDeserializationError(
+                "non-canonical point encoding".to_string(),
+            ));
+        }
         Ok(Self(point))
     }
 }
